@@ -10,7 +10,7 @@
 //   shrink X DIR IDX            calls PPL::shrink_to_congruence_no_check on COPIES of the components with the
 //                               IDX-th minimized congruence of the first one (DIR 12: (d1,d2), 21: (d2,d1))
 // Every command is answered by one `res`/`ans` line followed by one `st` line per live object:
-//   st X FLAG DIM | <comp1> | <comp2> | ok B B1 B2 I  comp = P|G  EMPTY(0|1)  cons K ... | cgs K ...
+//   st X FLAG DIM | <comp1> | <comp2> | ok B B1 B2 I  comp = P|G  EMPTY(0|1)  cons K ... | cgs K ... div D
 //   (B = OK(), B1/B2 = d1.OK()/d2.OK(), I = with the flag set, one more product_reduce leaves d1 and d2 equal)
 // Components are read from COPIES of the private members d1/d2, never through domain1()/domain2(),
 // so that printing does not trigger reduce().
@@ -33,6 +33,11 @@ static void print_comp(std::ostream& o, const Grid& g, unsigned dim) {
   Grid c(g);
   if (c.is_empty()) { o << "G 1"; return; }
   o << "G 0 "; print_cgs(o, c.congruences(), dim);
+  // divisor of the point of the minimized generator system (what Grid::max_min reads as gen_sys[0])
+  Grid c2(g); mpz_class dv = 1;
+  const Grid_Generator_System& gs = c2.minimized_grid_generators();
+  for (Grid_Generator_System::const_iterator i = gs.begin(); i != gs.end(); ++i) if (i->is_point()) { dv = i->divisor(); break; }
+  o << " div " << dv;
 }
 template <class D> static void print_comp(std::ostream& o, const D& d, unsigned dim) {
   D c(d);
